@@ -572,7 +572,7 @@ impl<'a> Engine<'a> {
             // (a) permutations
             if n >= 2 {
                 let perms: Vec<Vec<usize>> = if n <= 6 && factorial(n) <= max_perms {
-                    r.note("nodes_with_all_permutations", &format!("{}:{}", nr.key, n));
+                    r.note("nodes_with_all_permutations", &if nr.key.starts_with('G') { format!("generated struct with {n} tagged groups") } else { format!("{}:{}", nr.key, n) });
                     all_permutations(n)
                 } else {
                     (0..max_perms.min(200))
